@@ -580,6 +580,19 @@ func (c *Ctx) cellCapacity() {
 		return ok && bn.Obj().Name() == "Cell"
 	}
 	n := 0
+	// the capacity field by role: the integer field of BitString that NewBitString sets from its parameter
+	capField := "cap"
+	if nb := c.fn("boc", "NewBitString"); nb != nil && len(nb.Params) == 1 {
+		allInstrs(nb, func(_ *ssa.BasicBlock, in ssa.Instruction) {
+			if st, ok := in.(*ssa.Store); ok && stripConv(st.Val) == ssa.Value(nb.Params[0]) {
+				if fa, ok := st.Addr.(*ssa.FieldAddr); ok && isIntField(fa) {
+					if _, fn, ok := fieldOf(fa); ok {
+						capField = fn
+					}
+				}
+			}
+		})
+	}
 	for _, f := range c.moduleFuncs("boc") {
 		allInstrs(f, func(_ *ssa.BasicBlock, in ssa.Instruction) {
 			st, ok := in.(*ssa.Store)
@@ -592,7 +605,7 @@ func (c *Ctx) cellCapacity() {
 			}
 			// cell.bits.cap = K
 			if base, ok := fa.X.(*ssa.FieldAddr); ok && isCellBits(base) {
-				if _, fn, _ := fieldOf(fa); fn == "cap" || isIntField(fa) {
+				if _, fn, _ := fieldOf(fa); fn == capField {
 					if k, ok := constInt(st.Val); ok {
 						n++
 						c.check(k == 1023, R, fnName(f)+": capacity stored into a cell's bit string", st.Pos(), "1023", fmt.Sprintf("%s sets a cell's bit capacity to %d; a cell holds at most 1023 bits", fnName(f), k))
